@@ -588,7 +588,8 @@ static void build_page(const int* ch, ref_page_header* h) {
         if (ch[P_STATS]) { h->dph.has_stats = true; build_stats(ch[P_STATS], &h->dph.stats); } }
     else if (h->type == 2) { h->has_dict = true; h->dict.num_values = I32A[ch[P_NVALS]]; h->dict.encoding = EN[ch[P_ENC]]; if (ch[P_SORTED]) { h->dict.has_sorted = true; h->dict.sorted = ch[P_SORTED] == 1; } }
     else { h->has_v2 = true; h->v2.num_values = I32A[ch[P_NVALS]]; h->v2.num_nulls = I32A[(ch[P_NVALS] + 1) % 6]; h->v2.num_rows = I32A[(ch[P_NVALS] + 2) % 6]; h->v2.encoding = EN[ch[P_ENC]];
-           h->v2.def_len = I32A[ch[P_USIZE]]; h->v2.rep_len = I32A[ch[P_CSIZE]]; if (ch[P_SORTED]) { h->v2.has_compressed = true; h->v2.compressed = ch[P_SORTED] == 1; } }
+           h->v2.def_len = I32A[ch[P_USIZE]]; h->v2.rep_len = I32A[ch[P_CSIZE]]; if (ch[P_SORTED]) { h->v2.has_compressed = true; h->v2.compressed = ch[P_SORTED] == 1; }
+           if (ch[P_STATS]) { h->v2.has_stats = true; build_stats(ch[P_STATS], &h->v2.stats); } }
 }
 static bool eq_page(const parquet_page_header_t* c, const ref_page_header* h, bool rt, bool* stats_skipped) {
     g_diff = NULL;
@@ -609,6 +610,7 @@ static bool eq_page(const parquet_page_header_t* c, const ref_page_header* h, bo
         if (v->num_values != h->v2.num_values || v->num_nulls != h->v2.num_nulls || v->num_rows != h->v2.num_rows || (int32_t)v->encoding != h->v2.encoding ||
             v->definition_levels_byte_length != h->v2.def_len || v->repetition_levels_byte_length != h->v2.rep_len) DIFF("data_page_header_v2 fields");
         if (v->is_compressed != (h->v2.has_compressed ? h->v2.compressed : true)) DIFF("data_page_header_v2.is_compressed");
+        if (v->has_statistics != (rt ? false : h->v2.has_stats)) DIFF("data_page_header_v2.has_statistics");      /* carquet's writer never emits statistics in a V2 header; a reference-encoded one carries them */
     }
     return true;
 }
